@@ -386,6 +386,72 @@ class sorted_listdir:
 
 
 # ---- TLC side --------------------------------------------------------------------------------------
+_D3 = []
+_D3_LOCK = __import__("threading").Lock()
+
+
+def probe_d3():
+    """Is DEVIATION D3 (Workspace.tla) repaired on the tree under test?  Two independently opened handles of one job that both
+    touched .sp; one re-keys; a whole assignment through the other must not fail on the dependency's lock table."""
+    with _D3_LOCK:
+        return _probe_d3()
+
+
+_D4 = []
+
+
+def probe_d4():
+    """Is DEVIATION D4 repaired?  init() through a handle opened by id (state point not cached) whose job directory was removed
+    meanwhile must fail without creating a directory."""
+    with _D3_LOCK:
+        if not _D4:
+            import signac
+            from signac.job import _StatePointDict
+            saved = dict(getattr(_StatePointDict, "_locks", {}))
+            d = tempfile.mkdtemp(prefix="d4probe-", dir=os.environ.get("VERIF_WORK") or ("/dev/shm" if os.path.isdir("/dev/shm") else None))
+            try:
+                j = signac.init_project(d).open_job({"a": 1}).init()
+                h = signac.Project(d).open_job(id=j.id)
+                shutil.rmtree(j.path)
+                try:
+                    h.init()
+                except Exception:
+                    pass
+                _D4.append(not os.path.isdir(j.path))
+            finally:
+                shutil.rmtree(d, ignore_errors=True)
+                if hasattr(_StatePointDict, "_locks"):
+                    _StatePointDict._locks.clear()
+                    _StatePointDict._locks.update(saved)
+        return _D4[0]
+
+
+def _probe_d3():
+    if not _D3:
+        import signac
+        from signac.job import _StatePointDict
+        saved = dict(getattr(_StatePointDict, "_locks", {}))
+        d = tempfile.mkdtemp(prefix="d3probe-", dir=os.environ.get("VERIF_WORK") or ("/dev/shm" if os.path.isdir("/dev/shm") else None))
+        try:
+            p = signac.init_project(d)
+            a = p.open_job({"a": 1}).init()
+            a.sp
+            b = p.open_job({"a": 1})
+            b.sp
+            a.sp.a = 2
+            try:
+                b.statepoint = {"a": 3}
+                _D3.append(True)
+            except KeyError:
+                _D3.append(False)
+        finally:
+            shutil.rmtree(d, ignore_errors=True)
+            if hasattr(_StatePointDict, "_locks"):
+                _StatePointDict._locks.clear()
+                _StatePointDict._locks.update(saved)
+    return _D3[0]
+
+
 def mc_module(uni, ops, name="MC", init_jobs=(), init_cache=(False,)):
     order = "<<" + ", ".join(uni.tla_sp(s) for s in uni.order) + ">>"
     ij = "{" + ", ".join(uni.tla_sp(s) for s in init_jobs) + "}"
@@ -399,7 +465,7 @@ def mc_cfg(uni, projects, handles, docvals, files, fvals, depth, invariants=(), 
         "Projects": tlc.lit(set(projects)), "Keys": tlc.lit(set(uni.keys)), "Vals": tlc.lit(set(uni.vals)),
         "Handles": tlc.lit(set(handles)), "DocVals": tlc.lit(set(docvals)), "FileNames": tlc.lit(set(files)),
         "FVals": tlc.lit(set(fvals)), "MaxDepth": depth, "IdOrder": "<- IdOrderDef", "Ops": "<- OpsDef",
-        "InitJobs": "<- InitJobsDef", "InitCache": "<- InitCacheDef",
+        "InitJobs": "<- InitJobsDef", "InitCache": "<- InitCacheDef", "FixedD3": tlc.lit(probe_d3()), "FixedD4": tlc.lit(probe_d4()),
     }
     return tlc.cfg(consts, invariants=invariants, properties=properties, constraints=["Depth"], view="View" if view else None)
 
